@@ -273,6 +273,19 @@ class VFG(object):
                 if k is not None:
                     self._expr(fi, cfg, n, k)
                 self._edge(key, self._expr(fi, cfg, n, v), "elem", "literal")
+        elif isinstance(node, ast.BinOp) and isinstance(node.op, ast.Add) and isinstance(node.right, ast.Tuple) and isinstance(node.left, ast.Call) \
+                and self._returned_arity(node.left) is not None:
+            # tuple concatenation  f(..) + (a, b):  positions 0..k-1 are the positions of f's result, k.. the literal elements
+            k = self._returned_arity(node.left)
+            l = self._expr(fi, cfg, n, node.left)
+            for i in range(k):
+                mid = ("cat", id(node), i)
+                self.preds.setdefault(mid, [])
+                self.info[mid] = (fi, node)
+                self._edge(mid, l, "proj", i)
+                self._edge(key, mid, "tup", i)
+            for j, e in enumerate(node.right.elts):
+                self._edge(key, self._expr(fi, cfg, n, e), "tup", k + j)
         elif isinstance(node, ast.BinOp):
             l = self._expr(fi, cfg, n, node.left)
             r = self._expr(fi, cfg, n, node.right)
@@ -321,6 +334,21 @@ class VFG(object):
             self._edge(key, v, "copy", "walrus")
             self._define(fi, cfg, n, node.target, v, "copy", None)
         return key
+
+    def _returned_arity(self, call):
+        """k if the call resolves to internal functions every tuple-return of which has k elements (and that return nothing else), else None"""
+        ci = self.res.calls.get(id(call))
+        if ci is None or not ci.targets:
+            return None
+        ks = set()
+        for t in ci.targets:
+            for r in self.prog.own_nodes(t):
+                if isinstance(r, ast.Return):
+                    if isinstance(r.value, ast.Tuple):
+                        ks.add(len(r.value.elts))
+                    else:
+                        return None
+        return ks.pop() if len(ks) == 1 else None
 
     def _call(self, fi, cfg, n, node, key):
         ci = self.res.calls.get(id(node))
